@@ -9,7 +9,7 @@ META = {
     "category": "proof",
     "text": "Kernel-checked theorems about MJ/Model/Lexer.lean (transcription of Tokenizer::new, tokenize_root, find_start_marker incl. validated_start_delims / pattern_to_marker / the overlapping-match loop with max_pattern_len, find_start_marker_memchr, lstrip_block, should_lstrip_block, handle_tail_ws, skip_newline_if_trim_blocks, comment and raw handling incl. skip_basic_tag's marker-then-end rule, tokenize_block_or_var with numbers, operators, bracket depth and string literals: eat_string's quote search and unescape's \\uXXXX with surrogate pairs, \\xXX, octal and simple escapes, unterminated strings; line statements and line comments with skip_nl): the search the tokenizer uses is leftmost-longest for every delimiter set build accepts; the end of a tag is found exactly behind any well-formed token-list interior, for every end delimiter that does not begin with ASCII whitespace (it may begin with -, +, digits, letters, quotes: `-->`, `+}`, `1>`, `v>`); on every template whose texts contain no start delimiter and whose tags read back as written the lexed text equals specRender, which applies the five rules of the statement locally and treats a line statement / line comment as the block / comment tag occupying its line; the result does not depend on the delimiter set and default-looking tags are plain text under other delimiters.  Tied to /repo by running segment sequences (alphabets of the quantifier x tags incl. degenerate and rich interiors, strings that contain the family's own delimiters, ~100 escape bodies valid and invalid x marker pairs x 8 settings x 23 delimiter families incl. end delimiters beginning with -, +, a digit, a letter, whitespace and ending in blanks), degenerate tags as programs in every family against the default syntax, random delimiter sets x random sources, line statement layouts under 79 families with line prefixes and core-fragment programs through machinery::tokenize, Environment::render_str, the compiled Lean model and spec, and a second implementation of the rules in Python; the real find_start_marker (hook) against the model of the automaton path, the Lean reference search and a Python search on every haystack of length <= 5 (thorough 6) over {a, b, blank, newline} for start delimiter sets whose members are prefixes / suffixes / infixes of one another and overlap themselves, in every role; invalid delimiter sets must be rejected by SyntaxConfigBuilder::build.  Session 4: C10_main (named hypotheses hAc: the report of aho_corasick::find_overlapping meets AcSpec = exactly the occurrences, ordered by end offset; hLex: the tokenizer is the model run on that report) gives the full statement for the tokenizer; ac_loop_of_spec proves the max_pattern_len loop leftmost-longest over ANY report that meets AcSpec, ac_spec_decided that the executable acSpecB decides AcSpec, and the kac stream runs acSpecB on what the REAL automaton reports (hook start_marker_matches) on every enumerated haystack and the model loop on that real report.  The expression-level lexer emits its tokens in the model (scanPieces: text of every identifier, number in every notation, string literal, one / two character operator, bracket and every skipped blank): tokens_concat_verbatim (for every end delimiter and every input on which the tag end is found, the pieces in order + marker + end delimiter + unread rest are the input: no character lost or invented), interior_is_partitioned (for a tag that reads back as written the pieces concatenate to exactly the interior), pieces_same_end; the itok stream compares the model's token texts and tag end with the source text of the tokens the real lexer emits (from their spans) on ~95k interiors glued from token fragments with and without blanks (longest-match cases `1.5.2`, `2.foo`, `//=`, `***`, `1e+`, `0x`), every closing marker, 13 families incl. end delimiters that begin with -, +, a digit, a letter, and as line statements.",
     "design_ref": "DESIGN.md §3 C10",
-    "level_note": "Trusted: Lean kernel; hand transcription of lexer.rs / syntax.rs / utils::unescape into MJ/Model/Lexer.lean (validated on every generated case, including non-delimiter-free texts and lexer errors; = hypothesis hLex of C10_main); aho_corasick::find_overlapping enters only through the named specification AcSpec (hypothesis hAc of C10_main; evaluated by the proved decision procedure acSpecB on the real automaton's report for every kac haystack: exhaustive on haystacks of length <= 5 / 6, not proved for longer ones); byte offsets of the Rust code are character positions of the model.  MOVED FROM VALIDATED TO PROVED in session 4: (1) the abstraction 'find_overlapping = all occurrences ordered by end offset' is no longer built into the definition the theorems use: acLoop_eq_findLL_of_spec / ac_loop_of_spec hold for every report that meets AcSpec (order among equal ends and multiplicities free), and C10_main takes the report as a parameter; (2) the tokens inside tags: tokens_concat_verbatim, interior_is_partitioned, pieces_same_end about scanPieces (before: only the position of the tag end was modelled, interior tokens were invisible to the correspondence - the `tok=` comparison ignores them); (3) the main theorem C10_main with the gap to the code as hypotheses, C10_main_gives_full; (4) the clause 'the only characters ever removed are those the whitespace rules name' as theorems about the declarative rules themselves: text_is_partitioned (every text = removed prefix ++ printed part ++ removed suffix), removed_left_is_named (behind `-` exactly the leading whitespace, under trim_blocks exactly one line break behind an unmarked block / comment / raw tag, nothing behind `+` / a variable tag), removed_right_is_named (in front of `-` trailing whitespace, under lstrip_blocks only horizontal whitespace and only when the line holds nothing else, nothing in front of `+`) - before, these readings of specRender were only cross-checked against the Python rules.  STILL NOT DONE: a whole-source partition theorem for the root tokenizer (pieces exist for tag interiors only; for texts, stripped whitespace and delimiters the statement is lex_eq_spec itself); non-ASCII identifiers (hook lex_identifier exists, the model still answers unsupported); parser-level constructs are in the declarative spec only through the wrap stream's Python evaluator (for / macro / call / set / filter / block / with / autoescape / if), not in Lean.  The table C10_SEARCH_SITES skips functions that exist only under cfg(feature = verif_hooks) (instrumentation, not compiled for users).  MOVED FROM VALIDATED TO PROVED in this round: (1) string literals with \\uXXXX (incl. surrogate pairs and from_str_radix's leading +), \\xXX and octal escapes are tokens of lex_eq_spec / interior_end_found (Tok.str with strBodyOk = what unescape accepts, proved equal to the model's character-by-character reading; they were 'unsupported'); (2) end delimiters that begin with - / + (after fix 2cdfe64), with digits, letters, quotes or any other non-blank character, comment ends that begin with whitespace, end delimiters that end in horizontal whitespace, and block/variable/comment start delimiters that end in a line break are inside goodDelims (they were excluded by hypothesis; the excluded point hid the defect); (3) raw tags under such end delimiters (skip_basic_tag).  NOT COVERED by the theorems, with the reason (real code probed at each point): (a) start delimiters that begin with whitespace (` {%`): after `-}}` or, for a leading line break, under trim_blocks the lexer removes the whitespace the next delimiter begins with and the tag becomes text - the statement's clauses 'whitespace adjacent to a - marker is removed' and 'rewriting tags to other delimiters changes nothing' contradict each other there; (b) line prefixes that end in a line break and end delimiters whose last non-blank character is a line break (`%}\\n`): Tokenizer::new removes the template's trailing line break, which is then part of the last tag's delimiter (the tag no longer closes), and lstrip_blocks sees a line start behind the tag - again a rule of the statement applies to whitespace that belongs to a delimiter; (c) variable / block end delimiters that begin with ASCII whitespace: build accepts them but blanks inside a tag are skipped before the end delimiter is looked for, so no tag ever closes (every tag is a syntax error; the cfg stream checks that such a set renders the probe as written or fails); (d) non-ASCII identifiers (model answers 'unsupported'; 713 of 12216 random-set cases).  Sources that do not read back as written are outside by definition of the statement (`<!---->` = `<!--` + left marker + unclosed body; end delimiter `--` followed by the text `-x` = marker + end, as in Jinja2).  The parser / code generator / renderer behind the lexer are covered by the differential runs only.",
+    "level_note": "Trusted: Lean kernel; hand transcription of lexer.rs / syntax.rs / utils::unescape into MJ/Model/Lexer.lean (validated on every generated case, including non-delimiter-free texts and lexer errors; = hypothesis hLex of C10_main); aho_corasick::find_overlapping enters only through the named specification AcSpec (hypothesis hAc of C10_main; evaluated by the proved decision procedure acSpecB on the real automaton's report for every kac haystack: exhaustive on haystacks of length <= 5 / 6, not proved for longer ones); byte offsets of the Rust code are character positions of the model.  MOVED FROM VALIDATED TO PROVED in session 4: (1) the abstraction 'find_overlapping = all occurrences ordered by end offset' is no longer built into the definition the theorems use: acLoop_eq_findLL_of_spec / ac_loop_of_spec hold for every report that meets AcSpec (order among equal ends and multiplicities free), and C10_main takes the report as a parameter; (2) the tokens inside tags: tokens_concat_verbatim, interior_is_partitioned, pieces_same_end about scanPieces (before: only the position of the tag end was modelled, interior tokens were invisible to the correspondence - the `tok=` comparison ignores them); (3) the main theorem C10_main with the gap to the code as hypotheses, C10_main_gives_full; (4) the clause 'the only characters ever removed are those the whitespace rules name' as theorems about the declarative rules themselves: text_is_partitioned (every text = removed prefix ++ printed part ++ removed suffix), removed_left_is_named (behind `-` exactly the leading whitespace, under trim_blocks exactly one line break behind an unmarked block / comment / raw tag, nothing behind `+` / a variable tag), removed_right_is_named (in front of `-` trailing whitespace, under lstrip_blocks only horizontal whitespace and only when the line holds nothing else, nothing in front of `+`) - before, these readings of specRender were only cross-checked against the Python rules.  (5) the whole-source partition: source_is_partitioned / lexed_source_is_partitioned (the spans specParts - removed prefix, printed part, removed suffix of every text, and every tag - concatenate to the source as Tokenizer::new keeps it, i.e. every character belongs to exactly one span; the tokenizer prints exactly what the printed spans and the tags contribute; removed spans hold only whitespace), with interior_is_partitioned for the tokens and blanks inside a tag.  STILL NOT DONE: the two partitions are separate theorems (a tag is one span of the outer one; start delimiter ++ marker ++ interior pieces ++ marker ++ end delimiter is not assembled into one list); non-ASCII identifiers (hook lex_identifier exists, the model still answers unsupported); parser-level constructs are in the declarative spec only through the wrap stream's Python evaluator (for / macro / call / set / filter / block / with / autoescape / if), not in Lean.  The table C10_SEARCH_SITES skips functions that exist only under cfg(feature = verif_hooks) (instrumentation, not compiled for users).  MOVED FROM VALIDATED TO PROVED in this round: (1) string literals with \\uXXXX (incl. surrogate pairs and from_str_radix's leading +), \\xXX and octal escapes are tokens of lex_eq_spec / interior_end_found (Tok.str with strBodyOk = what unescape accepts, proved equal to the model's character-by-character reading; they were 'unsupported'); (2) end delimiters that begin with - / + (after fix 2cdfe64), with digits, letters, quotes or any other non-blank character, comment ends that begin with whitespace, end delimiters that end in horizontal whitespace, and block/variable/comment start delimiters that end in a line break are inside goodDelims (they were excluded by hypothesis; the excluded point hid the defect); (3) raw tags under such end delimiters (skip_basic_tag).  NOT COVERED by the theorems, with the reason (real code probed at each point): (a) start delimiters that begin with whitespace (` {%`): after `-}}` or, for a leading line break, under trim_blocks the lexer removes the whitespace the next delimiter begins with and the tag becomes text - the statement's clauses 'whitespace adjacent to a - marker is removed' and 'rewriting tags to other delimiters changes nothing' contradict each other there; (b) line prefixes that end in a line break and end delimiters whose last non-blank character is a line break (`%}\\n`): Tokenizer::new removes the template's trailing line break, which is then part of the last tag's delimiter (the tag no longer closes), and lstrip_blocks sees a line start behind the tag - again a rule of the statement applies to whitespace that belongs to a delimiter; (c) variable / block end delimiters that begin with ASCII whitespace: build accepts them but blanks inside a tag are skipped before the end delimiter is looked for, so no tag ever closes (every tag is a syntax error; the cfg stream checks that such a set renders the probe as written or fails); (d) non-ASCII identifiers (model answers 'unsupported'; 713 of 12216 random-set cases).  Sources that do not read back as written are outside by definition of the statement (`<!---->` = `<!--` + left marker + unclosed body; end delimiter `--` followed by the text `-x` = marker + end, as in Jinja2).  The parser / code generator / renderer behind the lexer are covered by the differential runs only.",
 }
 
 _WS_CP = [9, 10, 11, 12, 13, 32, 0x85, 0xA0, 0x1680] + list(range(0x2000, 0x200B)) + [0x2028, 0x2029, 0x202F, 0x205F, 0x3000]
@@ -579,16 +579,17 @@ def run(r):
               "degenerate tags as programs (comments with empty / blank / marker-like bodies, tight variable tags, if blocks, raw blocks x "
               "all marker placements; every sequence of <= 2 segments) and random core-fragment programs, rewritten to each family and "
               "compared with the default syntax (lexed by the model as well).  line: random line statement / line "
-              "comment layouts x 3 line endings x 8 settings under 79 families (every family x {#/##, @@/@, statement prefix only, comment "
+              "comment layouts (statements also continued over a line break inside brackets) x 3 line endings x 8 settings under 79 families (every family x {#/##, @@/@, statement prefix only, comment "
               "prefix only}), as templates with line tags (Lean spec) and against the in-place tag form.  "
               "kern: the real utils::memstr / utils::memchr on every haystack of length <= 8 over a 3-letter alphabet x every needle of "
               "length 1-4 (exhaustive) against the Lean kernels and Python's str.find.  kac: the real find_start_marker on every haystack "
               "of length <= 5 (thorough 6) over {a, b, blank, newline} (also behind a prefix, mid-line and at a line start) x 450 "
               "(thorough 1680) start delimiter sets whose members are prefixes / suffixes / infixes of one another and self-overlapping, "
               "in every role incl. both line prefixes, against the model of the automaton path, the Lean leftmost-longest search and a "
-              "Python search; on the same haystacks the automaton's own report (start, end, pattern of every overlapping match, max_pattern_len) is checked against AcSpec by the Lean acSpecB and by Python (every 5th set; thorough all).  itok: tag interiors glued from 70 token fragments (every fragment, every pair glued / spaced - quick a third per family -, random mixtures of 3-6) x closing markers x 13 families x {variable tag, block tag, line statement}: token texts and tag end of the real lexer against scanPieces.  entry: sampled segment sequences through "
-              "render_str, render_named_str, template_from_str, template_from_named_str, render_captured(_to), add_template + "
-              "get_template, a cloned environment, a loader, and with the whitespace settings flipped after add_template / before the "
+              "Python search; on the same haystacks the automaton's own report (start, end, pattern of every overlapping match, max_pattern_len) is checked against AcSpec by the Lean acSpecB and by Python (every 5th set).  kid: the real lex_identifier (hook; the harness build has the `unicode` feature off, so its ASCII form) on every string of length <= 3 over 22 characters (ASCII letters, digits, `_`, separators, non-ASCII characters that start / only continue / do not belong to identifiers, 2-4 bytes long) against an independent rule (Python str.isidentifier = XID when the unicode form is compiled) and the model's ASCII scan.  itok: tag interiors glued from 70 token fragments (every fragment, every pair glued / spaced - quick a third per family -, random mixtures of 3-6) x closing markers x 13 families x {variable tag, block tag, line statement}: token texts and tag end of the real lexer against scanPieces.  entry: sampled segment sequences through "
+              "render_str, render_named_str, template_from_str, template_from_named_str, render_captured(_to), "
+              "add_template (borrowed and owned) + get_template, a cloned environment, a loader, from another "
+              "template by include and by extends, and with the whitespace settings flipped after add_template / before the "
               "first load.  wrap: bodies from the segment alphabet inside for / macro / call / set / filter / block / with / autoescape "
               "with random markers on the opening and closing tags, expectation computed from the rules.  big: texts beyond 64 KiB.  "
               "cfg: valid, invalid and degenerate delimiter sets.  A seg case is non-trivial when it is distinct, delimiter-free and "
@@ -607,7 +608,7 @@ def run(r):
     # the streams are produced and checked part by part to bound memory; the next part is produced
     # (harness + model driver, both child processes) while the current one is checked
     nch = 8 if r.tier == "thorough" else 1
-    parts = [("seg-exh", i, nch) for i in range(nch)] + [("seg-sample", 0, 1), ("seg-fam", 0, 1), ("prog", 0, 1), ("line", 0, 1), ("rand", 0, 1), ("big", 0, 1), ("kern", 0, 1), ("kac", 0, 1), ("itok", 0, 1), ("entry", 0, 1), ("wrap", 0, 1), ("cfg", 0, 1)]
+    parts = [("seg-exh", i, nch) for i in range(nch)] + [("seg-sample", 0, 1), ("seg-fam", 0, 1), ("prog", 0, 1), ("line", 0, 1), ("rand", 0, 1), ("big", 0, 1), ("kern", 0, 1), ("kac", 0, 1), ("kid", 0, 1), ("itok", 0, 1), ("entry", 0, 1), ("wrap", 0, 1), ("cfg", 0, 1)]
     r.exhaustive = False
     import queue, threading, concurrent.futures
     q = queue.Queue(maxsize=1)
@@ -724,6 +725,31 @@ def check_lines(r, lines, model, verbose=False):
                 r.oracle_failure(case, f"utils::{which}({hay[bad]!r}, {needle!r}) returned {got!r}, the leftmost occurrence is {want[bad]!r}",
                                  f"kern/{which}")
             continue
+        if stream == "kid":
+            # the identifier scan (unicode-ident when the `unicode` feature is on) against the XID rules as
+            # Python's str.isidentifier knows them, and against the model's ASCII scan where that applies
+            r.count(case, True)
+            t = unhex(f[1])
+            uni = fl.get("unicode") == "1"
+            n = 0
+            for j, c in enumerate(t):
+                if uni:
+                    ok = c == "_" or (c.isidentifier() if j == 0 else ("a" + c).isidentifier())
+                else:
+                    ok = c == "_" or (ord(c) < 128 and (c.isalpha() if j == 0 else c.isalnum()))
+                if not ok:
+                    break
+                n += len(c.encode())
+            r.hist["kid"]["unicode identifiers" if uni else "ASCII identifiers"] += 1
+            if fl.get("len") != str(n):
+                r.broken.append(f"lex_identifier({t!r}) = {fl.get('len')}, the XID rules give {n} bytes")
+            if ml.get("nonascii") == "0":
+                r.hist["model"]["compared"] += 1
+                if ml.get("len") != fl.get("len"):
+                    r.model_disagreement(case, fl.get("len"), ml.get("len"))
+            else:
+                r.hist["model"]["unsupported interior"] += 1
+            continue
         if stream == "itok":
             # the tokens inside a tag: the model's pieces (tokens_concat_verbatim / interior_is_partitioned are
             # theorems about them) against the source text of the tokens the real lexer emits
@@ -771,9 +797,9 @@ def check_lines(r, lines, model, verbose=False):
                 elif ml.get("acloop") != want:
                     r.broken.append(f"acLoop over the real automaton's report differs from leftmost-longest although the report meets AcSpec "
                                     f"(contradicts acLoop_eq_findLL_of_spec) on {case}")
-                # second opinion in Python: the occurrences of the patterns (quick: every 5th set)
+                # second opinion in Python: the occurrences of the patterns (every 5th set)
                 pats = [d["vs"], d["bs"], d["cs"]] + [x for x in (d["ls"], d["lc"]) if x]
-                second = getattr(r, "tier", "quick") == "thorough" or i % 5 == 0
+                second = i % 5 == 0
                 for h, rep in (zip(words, fl["ms"].split(",")) if second else []):
                     occ = sorted((e, s0, pi) for pi, pt in enumerate(pats) for s0 in range(len(h) - len(pt) + 1)
                                  for e in [s0 + len(pt)] if h.startswith(pt, s0))
@@ -827,10 +853,18 @@ def check_lines(r, lines, model, verbose=False):
                 r.hist["entry-family"][fam] += 1
                 base = fl.get("render_str", "?")
                 for k in ("render_named_str", "template_from_str", "template_from_named_str", "render_captured",
-                          "render_captured_to", "add_template", "clone", "late_add", "loader"):
+                          "render_captured_to", "add_template",
+                          "add_template_borrowed", "clone", "late_add", "loader"):
                     r.hist["entry-point"][k] += 1
                     if fl.get(k) != base:
                         r.oracle_failure(case, f"{k} gives {fl.get(k)} but render_str gives {base} (source {src!r})", f"entry/{k}")
+                # reached through another template (`include`, `extends` without overrides): same text; a source
+                # that fails on its own fails there too
+                for k in ("include", "extends"):
+                    r.hist["entry-point"][k] += 1
+                    got = fl.get(k, "?")
+                    if (got != base) if base.startswith("ok:") else (not got.startswith("err:")):
+                        r.oracle_failure(case, f"reached by `{k}` the template gives {got} but render_str gives {base} (source {src!r})", f"entry/{k}")
                 if fl.get("late_loader") != fl.get("flipped"):
                     r.oracle_failure(case, f"a loader-backed template compiled after the settings were changed gives {fl.get('late_loader')}, "
                                            f"render_str under those settings {fl.get('flipped')} (source {src!r})", "entry/late_loader")
